@@ -767,6 +767,7 @@ func runC12(c *gen.Ctx) error {
 	c12StreamGen(c)
 	// (iii) the real reference server as createServer builds it (c12real.go)
 	c12RealGen(c)
+	c12RealOverlapGen(c)
 	return nil
 }
 
